@@ -198,6 +198,8 @@ func (c *Ctx) Explorer(budget int) *vx.Explorer {
 	return &vx.Explorer{Budget: budget, Shard: c.Shard, Shards: c.Shards, WantLabels: false, Stop: c.Expired}
 }
 
+const replayEvery = 251
+
 // Harness is a registered harness body.
 type Harness func(*Ctx)
 
@@ -304,6 +306,16 @@ func (c *Ctx) Run(e *vx.Explorer, body func(*vx.Run), check func(*vx.Run)) {
 	}
 	e.Explore(body, func(r *vx.Run) {
 		c.R.Evaluations++
+		// determinism validation: every ReplayEvery-th execution that exposes an observation
+		// (r.Note["obs"]) is re-executed from its recorded choice list and must observe the same
+		if obs, ok := r.Note["obs"].(string); ok && c.R.Evaluations%replayEvery == 1 {
+			r2 := vx.Replay(r.Choices, body)
+			if o2, _ := r2.Note["obs"].(string); o2 != obs {
+				c.Nondeterminism(fmt.Sprintf("%s: choices %v observed %q, replay observed %q", c.Harness, r.Choices, obs, o2))
+			} else {
+				c.R.Validated++
+			}
+		}
 		if check != nil {
 			check(r)
 		}
